@@ -252,6 +252,9 @@ CONFIGS['sessions'] = dict(transports=['t1', 't2'], ns_h=['/', '/a'],
                            alpha='sessions', dev=['D6'])
 CONFIGS['sessions_quick'] = dict(CONFIGS['sessions'], max_sid=3,
                                  block_suffix='')
+# two different values per (client, namespace): a save that does not REPLACE
+# the stored session shows
+CONFIGS['sessions_quick_b'] = dict(CONFIGS['sessions'], max_sid=2)
 
 
 # ------------------------------------------------------------------ residue
